@@ -2,12 +2,12 @@ SPECIFICATION Spec
 CONSTANTS
   VCodec = "none"
   ACodec = "aac"
-  MaxPub = 10
-  MaxVer = 3
+  MaxPub = 8
+  MaxVer = 2
   VKinds <- NoKinds
   DtPool <- Dt5
   AscPool = {1, 2, 3}
   ProbeMax = 16
-  GopNum = 0
+  GopNum = 1
 INVARIANTS AllOk EndComplete
-ACTION_CONSTRAINT EmitA
+VIEW View
